@@ -764,7 +764,7 @@ class TT():
                     'Second operand must be the same type as the fisrt (both should be either TT matrices or TT tensors).')
             result = TT(cores_new)
 
-        elif isinstance(other, int) or isinstance(other, float) or isinstance(other, complex) or isinstance(other, tn.Tensor):
+        elif isinstance(other, int) or isinstance(other, float) or isinstance(other, complex) or isinstance(other, tn.Tensor) or isinstance(other, np.number):
             if other != 0:
                 cores_new = [c+0 for c in self.cores]
                 cores_new[0] *= other
@@ -919,7 +919,7 @@ class TT():
         Returns:
             torchtt.TT: the result.
         """
-        if isinstance(other, int) or isinstance(other, float) or tn.is_tensor(other):
+        if isinstance(other, int) or isinstance(other, float) or tn.is_tensor(other) or isinstance(other, np.number):
             # divide by a scalar
             cores_new = self.cores.copy()
             cores_new[0] = cores_new[0] / other
